@@ -387,7 +387,7 @@ const closeBoundMs = 2500
 func runConn(sp srvSpec, srvAddr string, userIP string, px *pxSpec, pxs []*pxSpec, connIdx int, seed int64, tier string) connResult {
 	r := rand.New(rand.NewSource(seed))
 	mode := connIdx % 4
-	big := r.Intn(6) == 0
+	big := r.Intn(6) == 0 && (px.lim == 0 || tier != "thorough") // MiB payloads through a 256 KB/s limiter would take minutes
 	sizes := func() int {
 		switch r.Intn(6) {
 		case 0:
